@@ -115,7 +115,11 @@ func (s *Syncer[H]) networkHead(ctx context.Context) (H, bool, error) {
 	}
 
 	if newHead.Height() <= sbjHead.Height() {
-		// nothing new, just return what we have already
+		// nothing new from the peers, but the local head might have advanced meanwhile (e.g. via headersub),
+		// don't report the outdated one then
+		if curHead, lerr := s.localHead(ctx); lerr == nil && curHead.Height() > sbjHead.Height() {
+			sbjHead = curHead
+		}
 		return sbjHead, false, nil
 	}
 	// set the new head as subjective, skipping expensive verification
